@@ -66,10 +66,13 @@ def embed_case(ctx, case, cg, aa):
     finally:
         crd.AllChem = old
     rd = proxy.last
-    conf = rd.GetConformer()
-    rd_pos = [[conf.GetAtomPosition(i).x, conf.GetAtomPosition(i).y, conf.GetAtomPosition(i).z] for i in range(rd.GetNumAtoms())]
-    if len(rd_pos) != len(aa) or any(not np.all(np.isfinite(p)) for p in rd_pos):
-        ctx.contract('R0', slim, 'RDKit returned a different number of atoms / non-finite coordinates')
+    rd_pos = None
+    if rd is not None:
+        conf = rd.GetConformer()
+        rd_pos = [[conf.GetAtomPosition(i).x, conf.GetAtomPosition(i).y, conf.GetAtomPosition(i).z] for i in range(rd.GetNumAtoms())]
+    if rd_pos is None or len(rd_pos) != len(aa) or any(not np.all(np.isfinite(p)) for p in rd_pos):
+        ctx.contract('R0', slim, 'no RDKit embedding was observed for this call' if rd_pos is None else
+                     'RDKit returned a different number of atoms / non-finite coordinates')
         # the exact comparison with the captured conformer is impossible; the property is still looked at: every atom has
         # a position and bonded atoms lie at bonding distance (sum of covalent radii, generous 0.6 Å tolerance)
         rad = {'H': 0.31, 'C': 0.76, 'N': 0.71, 'O': 0.66, 'P': 1.07, 'S': 1.05, 'F': 0.57, 'Cl': 1.02, 'Br': 1.20, 'I': 1.39}
@@ -272,7 +275,17 @@ def run(ctx):
                         cg.nodes[k]['graph'].nodes[nn]['weight'] = w
         ctx.count('mol', lib.stable_hash([case['s']]), nontrivial=case['nfrag'] > 1, sample=case['s'])
         roundtrip_case(ctx, case, aa.copy())
+        again = None
+        if i % 3 == 0:
+            # the same compound embedded a second time in this process, its nodes in another order: every atom still gets
+            # ITS coordinates (nothing about an earlier embedding may be replayed in the earlier atom order)
+            order2 = list(aa.nodes)
+            rng.shuffle(order2)
+            again = (reorder(aa, order2), order2)
         embed_case(ctx, case, cg, aa)
+        if again is not None:
+            ctx.feature('embedded-again-in-another-order')
+            embed_case(ctx, dict(case, node_order=again[1], embedded_before=True), cg, again[0])
 
 
 def corpus_case(ctx, payload):
@@ -297,6 +310,9 @@ def replay(payload):
     r = impl.resolver_from_string(case['s'], legacy=case.get('legacy', True))
     with lib.quiet():
         cg, aa = r.resolve()
+    if case.get('embedded_before'):
+        # the failure needs the same compound to have been embedded before, in its original node order
+        embed_case(ctx, dict(case, node_order=None, embedded_before=False), cg, aa.copy())
     if case.get('node_order'):
         aa = reorder(aa, case['node_order'])
     roundtrip_case(ctx, case, aa.copy())
